@@ -8,17 +8,23 @@ package main
 
 import (
 	"bytes"
+	"crypto/ecdsa"
+	"crypto/rand"
 	"encoding/base64"
 	"encoding/json"
 	"fmt"
+	"math/big"
 	"os"
 	"path/filepath"
 	"sort"
+	"strconv"
 	"strings"
 
 	"github.com/btcsuite/btcutil/base58"
 	chacha "golang.org/x/crypto/chacha20poly1305"
 
+	gojose "github.com/go-jose/go-jose/v3"
+	hybrid "github.com/google/tink/go/hybrid/subtle"
 	"github.com/google/tink/go/keyset"
 
 	"github.com/hyperledger/aries-framework-go/component/kmscrypto/crypto/tinkcrypto/primitive/composite"
@@ -284,7 +290,14 @@ func (p *pool) unpack(c Case, h HEnv, b []byte) result {
 			return p.w.Project(pk.UnpackMessage(b))
 		}
 
-		pp, err := party.Packer(h.Packer, h.Enc)
+		kind := h.Packer
+		if c.Via == "auth" {
+			kind = "jwe-auth"
+		} else if c.Via == "anon" {
+			kind = "jwe-anon"
+		}
+
+		pp, err := party.Packer(kind, h.Enc)
 		if err != nil {
 			return env.Unpacked{Out: "err", Err: err.Error()}
 		}
@@ -389,6 +402,9 @@ func (p *pool) run(kind string, c Case, tr *hx.Trace) {
 				sig = "sender-forged-es-downgrade"
 			case c.Mut.Kind == "pu-forge" && r.From != 0:
 				sig = "sender-forged-1pu-foreign-static-key"
+			case c.Mut.Kind == "build" && r.From != 0:
+				// the sender's private key took no part in this envelope (the harness built it from an outsider's keys)
+				sig = "sender-attributed-without-sender-key"
 			case c.Mut.Kind == "coreenc" && c.H1.Packer == "leg-auth":
 				sig = "legacy-authcrypt-corecipient-forgery"
 			}
@@ -417,7 +433,14 @@ func (p *pool) run(kind string, c Case, tr *hx.Trace) {
 	}
 
 	up := "None"
-	if c.Via != "packager" {
+
+	switch c.Via {
+	case "packager":
+	case "auth":
+		up = "(Some JweAuth)"
+	case "anon":
+		up = "(Some JweAnon)"
+	default:
 		up = "(Some " + coqPacker(c.H1.Packer) + ")"
 	}
 
@@ -847,6 +870,9 @@ func (p *pool) mutateJWE(c Case, e1, e2 []byte) ([]byte, string, bool, error) {
 	case "es-forge":
 		// an outsider (party 5) uses the public API: NewJWEEncrypt with a sender KEY ID but no sender key
 		return p.esForge(c)
+	case "build":
+		// an envelope BUILT by an outsider (party 5) from scratch with the public crypto API
+		return p.buildAdv(c)
 	case "pu-forge":
 		// an outsider (party 5) uses the public API with ITS OWN static key but names the honest sender in skid
 		return p.puForge(c)
@@ -906,6 +932,291 @@ func (p *pool) esForge(c Case) ([]byte, string, bool, error) {
 
 	return []byte(s), coq, true, nil
 }
+
+// ---------- envelope construction grammar (adversary-built envelopes) ----------
+
+// advSpec says how the outsider assembles the envelope.  The content key is always REALLY wrapped with ECDH-ES for
+// every recipient (the outsider holds no honest sender key); everything else is free.
+type advSpec struct {
+	N       int    // recipients (the victim's key at Pos, the others are keys of other parties: decoys)
+	Pos     int    // position of the victim's entry
+	Skid    string // prot | unprot | none : where the claimed sender's key id goes
+	Apu     string // std (what WrapKey derives) | skid (the claimed sender's key id as apu, in wrap and header)
+	ApuProt bool   // several recipients: additionally apu = base64url(claimed sender's key id) in the protected header
+	VLabel  string // alg label of the victim's entry: es | 1pu
+	DLabel  string // alg label of the decoy entries: es | 1pu
+	AlgProt string // several recipients: shared alg in the protected header: none | es | 1pu
+	Ser     string // compact | flattened | general (one recipient); general otherwise
+}
+
+func (a advSpec) String() string {
+	return fmt.Sprintf("n=%d;pos=%d;skid=%s;apu=%s;apuprot=%v;vl=%s;dl=%s;algp=%s;ser=%s", a.N, a.Pos, a.Skid, a.Apu, a.ApuProt,
+		a.VLabel, a.DLabel, a.AlgProt, a.Ser)
+}
+
+func parseAdvSpec(s string) advSpec {
+	var a advSpec
+
+	for _, kv := range strings.Split(s, ";") {
+		p := strings.SplitN(kv, "=", 2)
+		if len(p) != 2 {
+			continue
+		}
+
+		switch p[0] {
+		case "n":
+			a.N, _ = strconv.Atoi(p[1])
+		case "pos":
+			a.Pos, _ = strconv.Atoi(p[1])
+		case "skid":
+			a.Skid = p[1]
+		case "apu":
+			a.Apu = p[1]
+		case "apuprot":
+			a.ApuProt = p[1] == "true"
+		case "vl":
+			a.VLabel = p[1]
+		case "dl":
+			a.DLabel = p[1]
+		case "algp":
+			a.AlgProt = p[1]
+		case "ser":
+			a.Ser = p[1]
+		}
+	}
+
+	return a
+}
+
+func epkJWK(pk *cryptoapi.PublicKey) (json.RawMessage, error) {
+	var key interface{}
+
+	switch pk.Type {
+	case "EC":
+		c, err := hybrid.GetCurve(pk.Curve)
+		if err != nil {
+			return nil, err
+		}
+
+		key = &ecdsa.PublicKey{Curve: c, X: new(big.Int).SetBytes(pk.X), Y: new(big.Int).SetBytes(pk.Y)}
+	default:
+		key = pk.X
+	}
+
+	j := jwk.JWK{JSONWebKey: gojose.JSONWebKey{Key: key}, Kty: pk.Type, Crv: pk.Curve}
+
+	return j.MarshalJSON()
+}
+
+func cekSize(enc string) int {
+	switch enc {
+	case "A192CBC":
+		return 48
+	case "A256CBC384":
+		return 56
+	case "A256CBC512":
+		return 64
+	}
+
+	return 32
+}
+
+func (p *pool) buildAdv(c Case) ([]byte, string, bool, error) {
+	h := c.H1
+	a := parseAdvSpec(c.Mut.Arg)
+	mal := p.w.Parties[5]
+	claimed := p.key(h, h.Sender)
+	victim := p.keys[h.kt()][c.Party][0]
+	b64 := base64.RawURLEncoding.EncodeToString
+
+	esReal, esCoq := "ECDH-ES+A256KW", "ES_A256KW"
+	puLabel, puCoq := "ECDH-1PU+A256KW", "PU_A256KW"
+
+	if h.kt() == env.X25519 {
+		esReal, esCoq = "ECDH-ES+XC20PKW", "ES_XC20PKW"
+		puLabel, puCoq = "ECDH-1PU+XC20PKW", "PU_XC20PKW"
+	}
+
+	label := func(l string) (string, string) {
+		if l == "1pu" {
+			return puLabel, "(Some " + puCoq + ")"
+		}
+
+		return esReal, "(Some " + esCoq + ")"
+	}
+
+	// recipients: decoys are keys of parties 2,3,4 (never the victim's party)
+	var rks []*env.Key
+
+	d := 0
+
+	for i := 0; i < a.N; i++ {
+		if i == a.Pos {
+			rks = append(rks, victim)
+			continue
+		}
+
+		pa := 2 + d%3
+		if pa == c.Party {
+			pa = 2 + (d+1)%3
+		}
+
+		rks = append(rks, p.keys[h.kt()][pa][d/3%nSlots])
+		d++
+	}
+
+	cek := make([]byte, cekSize(h.Enc))
+	_, _ = rand.Read(cek)
+
+	skidStr := claimed.Ref(h.Style)
+	skidCoq := coqKref(h.Style, claimed)
+	cekCoq := "(cek_of (mkrnd 200000 200050 200051))"
+
+	prot := map[string]interface{}{"enc": string(env.EncAlg(h.Enc)), "typ": transport.MediaTypeV2EncryptedEnvelope,
+		"cty": transport.MediaTypeV2PlaintextPayload}
+	// Coq: enc skid alg kid epk apu apv
+	pSkid, pAlg, pKid, pEpk, pApu := "None", "None", "None", "None", "None"
+
+	if a.Skid == "prot" {
+		prot["skid"] = skidStr
+		pSkid = "(Some " + skidCoq + ")"
+	}
+
+	var (
+		recs    []env.RawRec
+		recsCoq []string
+	)
+
+	for i, rk := range rks {
+		pk := *rk.Pub
+		pk.KID = rk.Ref(h.Style)
+
+		var apuIn []byte
+		if a.Apu == "skid" {
+			apuIn = []byte(skidStr)
+		}
+
+		var opts []cryptoapi.WrapKeyOpts
+		if h.kt() == env.X25519 {
+			opts = append(opts, cryptoapi.WithXC20PKW())
+		}
+
+		wk, err := mal.Crypto.WrapKey(cek, apuIn, nil, &pk, opts...)
+		if err != nil {
+			return nil, "", false, err
+		}
+
+		epk, err := epkJWK(&wk.EPK)
+		if err != nil {
+			return nil, "", false, err
+		}
+
+		e := 200000 + i
+		apuTerm := fmt.Sprintf("(apu_es (Pub %d))", e)
+
+		if a.Apu == "skid" {
+			apuTerm = "(t_kref " + skidCoq + ")"
+		}
+
+		lab := a.DLabel
+		if i == a.Pos {
+			lab = a.VLabel
+		}
+
+		algStr, algCoq := label(lab)
+		ekCoq := fmt.Sprintf("(Wrap (kek_es %s (dh %d %d) %s (Tup [])) %s)", esCoq, e, rk.Name, apuTerm, cekCoq)
+		kidCoq := "(Some " + coqKref(h.Style, rk) + ")"
+
+		if a.N == 1 {
+			// one recipient: the packers read kid, alg, epk, apu from the protected header
+			prot["kid"], prot["alg"], prot["epk"], prot["apu"] = pk.KID, algStr, json.RawMessage(epk), b64(wk.APU)
+			pKid, pAlg, pEpk, pApu = kidCoq, algCoq, fmt.Sprintf("(Some (Pub %d))", e), "(Some "+apuTerm+")"
+			recs = append(recs, env.RawRec{EncryptedKey: b64(wk.EncryptedCEK)})
+			recsCoq = append(recsCoq, "mkrcp None "+ekCoq)
+
+			continue
+		}
+
+		hm := map[string]interface{}{"kid": pk.KID, "alg": algStr, "epk": json.RawMessage(epk), "apu": b64(wk.APU)}
+		hb, _ := json.Marshal(hm)
+		recs = append(recs, env.RawRec{Header: hb, EncryptedKey: b64(wk.EncryptedCEK)})
+		recsCoq = append(recsCoq, fmt.Sprintf("mkrcp (Some (mkrhdr %s %s (Some (Pub %d)) (Some %s) None)) %s", kidCoq, algCoq, e, apuTerm, ekCoq))
+	}
+
+	if a.N > 1 {
+		if a.AlgProt != "none" {
+			algStr, algCoq := label(a.AlgProt)
+			prot["alg"], pAlg = algStr, algCoq
+		}
+
+		if a.ApuProt {
+			prot["apu"] = b64([]byte(skidStr))
+			pApu = "(Some (t_kref " + skidCoq + "))"
+		}
+	}
+
+	pb, _ := json.Marshal(prot)
+	protB64 := b64(pb)
+
+	// content encryption under the chosen key with the protected header as AAD
+	kt := ecdh.KeyTemplateForECDHPrimitiveWithCEK(cek, true, aeadAlg[h.Enc])
+
+	ekh, err := keyset.NewHandle(kt)
+	if err != nil {
+		return nil, "", false, err
+	}
+
+	pubKH, err := ekh.Public()
+	if err != nil {
+		return nil, "", false, err
+	}
+
+	prim, err := ecdh.NewECDHEncrypt(pubKH)
+	if err != nil {
+		return nil, "", false, err
+	}
+
+	ser, err := prim.Encrypt(payloadBytes(forged), []byte(protB64))
+	if err != nil {
+		return nil, "", false, err
+	}
+
+	ed := &composite.EncryptedData{}
+	if err := json.Unmarshal(ser, ed); err != nil {
+		return nil, "", false, err
+	}
+
+	raw := &env.RawJWE{Protected: protB64, Recipients: recs, IV: b64(ed.IV), Ciphertext: b64(ed.Ciphertext), Tag: b64(ed.Tag)}
+
+	if a.Skid == "unprot" {
+		raw.Unprotected, _ = json.Marshal(map[string]string{"skid": skidStr})
+	}
+
+	var out []byte
+
+	switch {
+	case a.N == 1 && a.Ser == "compact":
+		raw.Compact = true
+		out = raw.Bytes()
+	case a.N == 1 && a.Ser == "flattened":
+		m := map[string]interface{}{"protected": raw.Protected, "encrypted_key": recs[0].EncryptedKey, "iv": raw.IV,
+			"ciphertext": raw.Ciphertext, "tag": raw.Tag}
+		if raw.Unprotected != nil {
+			m["unprotected"] = raw.Unprotected
+		}
+
+		out, _ = json.Marshal(m)
+	default:
+		out = raw.Bytes()
+	}
+
+	coq := fmt.Sprintf("WJwe (reenc_jwe %s %d (mkjwe (Some (mkphdr (Some %s) %s %s %s %s %s None 0)) %s (Tup []) (Bytes 77) (Junk 0) (Junk 0)))",
+		cekCoq, forged, h.Enc, pSkid, pAlg, pKid, pEpk, pApu, recsCoq2(recsCoq))
+
+	return out, coq, true, nil
+}
+
+func recsCoq2(items []string) string { return "[" + strings.Join(items, "; ") + "]" }
 
 func puAlg(kt, enc string) string {
 	if kt == env.X25519 {
@@ -1548,6 +1859,67 @@ func (p *pool) gen(tr *hx.Trace, rng *hx.Rng, thorough bool) {
 	}
 }
 
+// genBuilt enumerates the construction grammar: header placements of skid / apu / alg, per-recipient alg labels
+// independent of the real (ECDH-ES) wrapping, victim position, serialization, unpacked through the packager and
+// through each JWE packer directly.
+func (p *pool) genBuilt(tr *hx.Trace, rng *hx.Rng, thorough bool) {
+	cfgs := [][3]string{{env.X25519, "XC20P", "didkey"}, {env.P256, "A256CBC512", "diddoc"}, {env.P384, "A128CBC", "pdoc"}}
+	vias := []string{"packager", "auth", "anon"}
+
+	var all []advSpec
+
+	for _, ser := range []string{"compact", "flattened", "general"} {
+		for _, skid := range []string{"prot", "unprot", "none"} {
+			for _, apu := range []string{"std", "skid"} {
+				for _, vl := range []string{"es", "1pu"} {
+					all = append(all, advSpec{N: 1, Skid: skid, Apu: apu, VLabel: vl, DLabel: "es", AlgProt: "none", Ser: ser})
+				}
+			}
+		}
+	}
+
+	for n := 2; n <= 3; n++ {
+		for pos := 0; pos < n; pos++ {
+			for _, skid := range []string{"prot", "unprot", "none"} {
+				for _, apu := range []string{"std", "skid"} {
+					for _, ap := range []bool{false, true} {
+						for _, vl := range []string{"es", "1pu"} {
+							for _, dl := range []string{"es", "1pu"} {
+								for _, algp := range []string{"none", "es", "1pu"} {
+									all = append(all, advSpec{N: n, Pos: pos, Skid: skid, Apu: apu, ApuProt: ap, VLabel: vl, DLabel: dl,
+										AlgProt: algp, Ser: "general"})
+								}
+							}
+						}
+					}
+				}
+			}
+		}
+	}
+
+	for ci, cf := range cfgs {
+		h := HEnv{Packer: "jwe-auth", KT: cf[0], Enc: cf[1], Style: cf[2], Payload: 11, Sender: [2]int{0, 0}, Rcpts: [][2]int{{1, 0}}}
+
+		for i, a := range all {
+			// the whole grammar for the first configuration; a seeded third of it for the others (all of it in thorough)
+			if ci > 0 && !thorough && rng.Intn(3) != 0 {
+				continue
+			}
+
+			via := vias[(i+ci)%3]
+			if thorough || a.N == 1 {
+				for _, v := range vias {
+					p.run("built", Case{H1: h, H2: h, Mut: Mut{Kind: "build", Arg: a.String()}, Party: 1, Via: v}, tr)
+				}
+
+				continue
+			}
+
+			p.run("built", Case{H1: h, H2: h, Mut: Mut{Kind: "build", Arg: a.String()}, Party: 1, Via: via}, tr)
+		}
+	}
+}
+
 func corpus(p *pool, dir string, tr *hx.Trace) {
 	files, _ := filepath.Glob(filepath.Join(dir, "*.json"))
 	sort.Strings(files)
@@ -1598,4 +1970,5 @@ func main() {
 
 	corpus(p, args.Extra, tr)
 	p.gen(tr, hx.NewRng(args.Seed), args.Tier == "thorough")
+	p.genBuilt(tr, hx.NewRng(args.Seed+99), args.Tier == "thorough")
 }
